@@ -22,19 +22,19 @@ Start == /\ pc = "start"
 Req1 == /\ pc = "req1"
         /\ IF IsObject(r1) THEN pc' = "req2" /\ UNCHANGED <<result, timeouts>>
            ELSE /\ pc' = "done" /\ timeouts' = timeouts + (IF Slow(r1) THEN 1 ELSE 0)
-                /\ result' = IF r1 = "null" THEN "hitOrError" ELSE "error"       \* null: see DESIGN §6 row 10 (elastic repaired -> error; docker: known finding)
+                /\ result' = "error"                     \* also for a `null` body: null is not a JSON object (docker: known finding F08)
         /\ UNCHANGED <<probe, ping, r1, r2, emitted>>
 Req2 == /\ pc = "req2" /\ pc' = "done" /\ result' = "hit"                         \* whatever request 2 does
         /\ timeouts' = timeouts + (IF Slow(r2) THEN 1 ELSE 0)
         /\ UNCHANGED <<probe, ping, r1, r2, emitted>>
 Dump == /\ Emit /\ pc = "done" /\ ~emitted /\ emitted' = TRUE
-        /\ PrintT(ToJson([probe |-> probe, ping |-> ping, r1 |-> r1, r2 |-> r2, result |-> result, timeouts |-> timeouts]))
+        /\ PrintT(ToJson([probe |-> probe, ping |-> ping, r1 |-> r1, r2 |-> r2]))
         /\ UNCHANGED <<probe, ping, r1, r2, pc, result, timeouts>>
 Next == Start \/ Req1 \/ Req2 \/ Dump
 Spec == Init /\ [][Next]_vars /\ WF_vars(Start \/ Req1 \/ Req2)
 (* C10 *)
 HitIffJsonObject == pc = "done" => /\ (result = "hit" <=> ((probe = "elastic" \/ ping = "ok") /\ IsObject(r1)))
-                                   /\ (result = "hitOrError" => r1 = "null")
+                                   /\ result \in {"hit", "error"}
 SecondaryHarmless == pc = "done" /\ IsObject(r1) /\ (probe = "elastic" \/ ping = "ok") => result = "hit"     \* for every r2
 \* elastic: one deadline per request; docker: one deadline for the whole probe -- either way at most 2 resp. 1 expire
 TimeBounded == timeouts <= (IF probe = "elastic" THEN 2 ELSE 2)
